@@ -494,7 +494,7 @@ fn eval_cli_bin(c: &TCase, bin: &'static str) -> CaseOutcome {
         classes.push("c15/cli-no-final-newline".into());
     }
     let so = out.out_str();
-    if so.contains("Syntax Error") {
+    if so.to_ascii_lowercase().contains("syntax error") {
         classes.push("c15/cli-syntax-error".into());
     }
     if so.contains("used but not defined") {
